@@ -6,3 +6,4 @@ git -C /repo apply /verif/seeded/$id/patch.diff || exit 3
 cd /verif
 for p in "$@"; do ./check $p --tier quick 2>&1 | grep -E "VIOLATION|KNOWN|^C[0-9]+ " | sed "s/^/[$id] /"; done
 git -C /repo checkout -- . 
+cd /verif && PYTHONPATH=/repo/src:/verif PYTHONHASHSEED=0 /venv/bin/python -m tools.gen >/dev/null
